@@ -111,14 +111,10 @@ ImplMocks ==
           results |-> [k \in DOMAIN ms[j].results |-> ImplType(ms[j].results[k], FALSE, m)],
           variadic |-> Len(ms[j].params) > 0 /\ ms[j].params[Len(ms[j].params)].variadic]]]]
 
-\* Registry.addImport ignores the file's own package only when the mock is in-package with the SOURCE
-\* (registry.go:118): a replacement that lives in a separate destination package is imported by its own
-\* file.  Known deviation, finding C13-replace-target-in-own-separate-package.
-SelfImportDeviation == place = "separate" /\ target = "dstpkg"
-ImplOutcome ==
-  LET oc == Outcome(ImplMocks)
-      selfimp == SelfImportDeviation /\ "dst" \in UNION {UNION {MethodRefs(oc.mocks[i].methods[j]) : j \in DOMAIN oc.mocks[i].methods} : i \in DOMAIN oc.mocks}
-  IN IF selfimp THEN [oc EXCEPT !.req = @ \cup {"dst"}, !.forb = @ \ {"dst"}] ELSE oc
+\* Registry.addImport never imports the file's own package: not for an in-package mock, and (fix 056b15a) not for
+\* a type -- such as a replace-type target -- that lives in a separate destination package either (only the source
+\* package can share the destination path without being the output package: external _test package).
+ImplOutcome == Outcome(ImplMocks)
 
 Render ==
   /\ pc = "render" /\ pc' = "done"
@@ -135,11 +131,8 @@ TheBase   == Base(pos, other, srckind, target, level)
 
 \* (no operator of the contract mentions place: one representative suffices)
 Rep(S) == CHOOSE x \in S : TRUE
-\* Impl => Contract up to the one known deviation (checked as an invariant: today's code-shaped layer has no other)
-ImplConforms == pc = "done" => (out \in TheAccept \/ SelfImportDeviation)
-\* the deviation really is one (otherwise the known-finding entry is stale)
-DeviationIsReal == pc = "done" /\ SelfImportDeviation /\ (\E i \in DOMAIN out.mocks : \E j \in DOMAIN out.mocks[i].methods :
-                        "dst" \in MethodRefs(out.mocks[i].methods[j])) => out \notin TheAccept
+\* Impl => Contract (checked as an invariant; no known deviation is left after fix 056b15a)
+ImplConforms == pc = "done" => out \in TheAccept
 \* the contract is satisfiable, always demands a change on a covered exact position, never touches uncovered mocks
 ContractSane == pc = "done" /\ place = Rep(Placements) =>
   /\ TheAccept # {}
